@@ -3,5 +3,5 @@ CONSTANTS
   CAmts0 = {0, 2, 4, 8}
   FAmts = {0, 1, 2, 4, 8}
   Ids = {1, 2, 3}
-INVARIANTS PerConstraint PerPair PerMulti
+INVARIANTS PerConstraint PerPair PerMulti PerBuckets
 CHECK_DEADLOCK FALSE
